@@ -324,6 +324,15 @@ func Generate(seed uint64, n int, opt GenOptions) (*Script, error) {
 	for st := 0; st < steps; st++ {
 		if !imported && st >= importAt && h.N.Height() >= 2 {
 			imported = true
+			// the restore starts from a wallet that follows the node's tip (a restore started on a
+			// stale tip answers "importing continuable" until the next announcement: C07's subject)
+			for _, q := range queue {
+				g.announce(q)
+			}
+			queue = nil
+			if h.W.H.VerifBest().Hash != *h.N.Tip().Hash() {
+				g.announce(h.N.Tip())
+			}
 			num := 0
 			for _, ws := range s.Wallets {
 				if ws.Foreign {
